@@ -1554,13 +1554,14 @@ open KawinV.SurrogateFit
 
 variable {δ π : Type}
 
-/-- what `receiver.fromJson(file)` leaves: the receiver's settings, the FILE's data, and per quantity the kernel refitted
-from the file's data (the receiver's old kernel only where the file has no data / no axis for that quantity) -/
+/-- what `receiver.fromJson(file)` leaves: the receiver's settings, the FILE's data, and per quantity the kernel fitted
+from the file's data (no kernel where the file has no data / no axis for that quantity): nothing of what the receiver
+held as data or kernels is left -/
 theorem loadInto_spec (h : Hooks π) (hi : Inert h) (r : Surr δ π) (file : Q → Option (Train δ π)) :
     (loadInto h r file).settings = r.settings ∧ (loadInto h r file).data = file ∧
-    ∀ q, (loadInto h r file).models q = fitted h r.settings (file q) (r.models q) := by
+    ∀ q, (loadInto h r file).models q = fitted h r.settings (file q) none := by
   obtain ⟨h1, h2, h3⟩ := foldl_fitQ h hi refitOrder
-    ({ settings := r.settings, data := file, models := r.models } : Surr δ π)
+    ({ settings := r.settings, data := file, models := fun _ => none } : Surr δ π)
   refine ⟨h1, h2, fun q => ?_⟩
   have hin : q ∈ refitOrder := by cases q <;> simp [refitOrder]
   unfold loadInto
@@ -1599,15 +1600,26 @@ theorem load_into_receiver_equals_original (h : Hooks π) (hi : Inert h) (s0 : S
     ← rebuild_is_load_into_fresh]
   exact rebuild_equals_original h hi s0 ops hc q
 
-/-- the code as it is (recorded finding `surrogate-receiver-keeps-model-of-quantity-not-in-file`): a quantity the file
-does NOT hold keeps the receiver's kernel while its stored data are gone -/
-theorem load_keeps_model_of_absent_quantity (h : Hooks π) (hi : Inert h) (r : Surr δ π)
+/-- a quantity the file does NOT hold is untrained after the load (no data, no kernel), as it is in the original the
+file was written from — whatever the receiver was trained for (repair 1756dd7; oracle key
+`surrogate-receiver-keeps-model-of-quantity-not-in-file:<quantity>`) -/
+theorem load_clears_absent_quantity (h : Hooks π) (hi : Inert h) (r : Surr δ π)
     (file : Q → Option (Train δ π)) (q : Q) (hq : file q = none) :
-    (loadInto h r file).models q = r.models q ∧ (loadInto h r file).data q = none := by
+    (loadInto h r file).models q = none ∧ (loadInto h r file).data q = none := by
   obtain ⟨_, h2, h3⟩ := loadInto_spec h hi r file
   refine ⟨?_, by rw [h2, hq]⟩
   rw [h3 q, hq]
   rfl
+
+/-- the receiver's data and kernels do not matter at all: two receivers with the same settings are the same object
+after the load, for every quantity -/
+theorem load_forgets_receiver (h : Hooks π) (hi : Inert h) (r1 r2 : Surr δ π) (hs : r1.settings = r2.settings)
+    (file : Q → Option (Train δ π)) (q : Q) :
+    (loadInto h r1 file).models q = (loadInto h r2 file).models q ∧ (loadInto h r1 file).data q = (loadInto h r2 file).data q := by
+  obtain ⟨_, a2, a3⟩ := loadInto_spec h hi r1 file
+  obtain ⟨_, b2, b3⟩ := loadInto_spec h hi r2 file
+  rw [a3, b3, a2, b2, hs]
+  exact ⟨rfl, rfl⟩
 
 /-! witnesses -/
 
@@ -1634,11 +1646,13 @@ example : (loadInto (code Nat) coarseReceiver refinedFile).models .drivingForce
   (load_overwrites_models (code Nat) code_inert coarseReceiver refinedFile .drivingForce
     { payload := 1, points := [0, 1, 2, 3], cols := 1 } rfl (by decide)).1
 
-/-- the finding on a concrete receiver: trained for diffusivity, the file holds the driving force only -/
-example :
+/-- VARIANT before repair 1756dd7 (kernels never cleared): a receiver trained for diffusivity that loads a file holding
+the driving force only keeps a diffusivity kernel WITHOUT data (its getter raised KeyError); the code clears it -/
+theorem unrepaired_load_keeps_model_of_absent_quantity :
     let r : Surr Nat Nat := runS (code Nat) (empty Nat Nat s0T) [.train .diffusivity { payload := 7, points := [0, 1], cols := 2 }]
-    ((loadInto (code Nat) r refinedFile).models .diffusivity).isSome = true ∧
-    ((loadInto (code Nat) r refinedFile).data .diffusivity).isSome = false := by
+    ((loadIntoKeepModels (code Nat) r refinedFile).models .diffusivity).isSome = true ∧
+    ((loadIntoKeepModels (code Nat) r refinedFile).data .diffusivity).isSome = false ∧
+    ((loadInto (code Nat) r refinedFile).models .diffusivity).isSome = false := by
   decide
 
 end load_receiver
